@@ -30,7 +30,7 @@ ASSUMPTIONS = ['vt.benchref is the definition of what a bench text denotes', 'la
 REQUIRED = {'mon:format_circuit.checked': 200, 'mon:save_to_file.checked': 20, 'mon:from_bench_string.checked': 200,
             'mon:from_bench_file.checked': 20, 'labels:keyword': 20, 'labels:digits': 20, 'labels:brackets': 20,
             'layout:use_before_def': 50, 'const_with_operands': 10, 'printed_after_rewrite': 20,
-            'pass_ran:minimize_subcircuits': 20, 'pass_ran:cleanup': 10, 'bigfile_roundtrips': 16}
+            'pass_ran:minimize_subcircuits': 20, 'pass_ran:cleanup': 10, 'bigfile_roundtrips': 16, 'broken_text_then_valid': 100}
 
 CUR = {'ctx': None, 'case': None, 'admissible': False}
 _IDENT = re.compile(r'^[A-Za-z0-9_.\[\]@]+$')
@@ -243,6 +243,20 @@ def check_case(case, ctx):
         lrng = random.Random('%s:%d' % (case['rseed'], k))
         # the reference reader cannot express constants *with* operands through the vdd alias etc.; render handles it
         text = benchref.render(net, lrng)
+        if lrng.random() < 0.25:
+            # a broken text first (as when a user fixes a typo and loads again): it uses labels before defining them and
+            # then fails on a malformed line; whatever the parser did with it must not influence the next, well-formed text
+            bad = lrng.choice(['vt_bad = FOO(vt_fwd1)', 'vt_bad = AND(vt_fwd1', 'vt_bad = AND()', 'vt_bad AND(vt_fwd1, vt_fwd2)',
+                               'INPUT(vt_fwd1', 'vt_bad = NOT(vt_fwd1, vt_fwd2, vt_fwd3)'])
+            lines = text.split('\n')
+            cut = lrng.randrange(len(lines) + 1)
+            broken = '\n'.join(['vt_u1 = NOT(vt_fwd1)', 'vt_u2 = AND(vt_fwd2, vt_u1)'] + lines[:cut] + [bad] + lines[cut:])
+            CUR['admissible'] = False
+            try:
+                Circuit.from_bench_string(broken)
+                ctx.count('broken_text_accepted')
+            except Exception:
+                ctx.count('broken_text_then_valid')
         CUR['case'] = dict(case, text=text)
         CUR['admissible'] = True
         try:
